@@ -25,6 +25,7 @@ func registry() []PropSpec {
 			Quick: []HarnessSpec{
 				{Pkg: pkgTracer, Func: "H15a_q", Unwind: 8, Note: "tracingHTTP2Conn.Read/Write/Close against a fake conn returning n in 0..4 and nil / error / timeout error, client and server side"},
 				{Pkg: pkgTracer, Func: "H15k_q", Unwind: 30, Split: []SplitDim{{"cut", 0, 20}}, CaseNote: "case split: where the 20-byte stream is cut into two reads", Note: "http2FrameTracer.trace on a HEADERS frame with or without END_HEADERS followed by a CONTINUATION (resp. another frame), 1-byte payloads symbolic, every cut into two reads; emitFrame is the recording model (natively: the real framer and HPACK decoder on a really split request header block after the client preface)"},
+				{Pkg: pkgTracer, Func: "H15k3_q", Unwind: 44, Split: []SplitDim{{"cut", 0, 30}}, CaseNote: "three frames (HEADERS, CONTINUATION without END_HEADERS, CONTINUATION with END_HEADERS; resp. three unrelated frames): case split: where the 30-byte stream is cut into two reads", Note: "three frames (HEADERS, CONTINUATION without END_HEADERS, CONTINUATION with END_HEADERS; resp. three unrelated frames): http2FrameTracer.trace on a HEADERS frame with or without END_HEADERS followed by a CONTINUATION (resp. another frame), 1-byte payloads symbolic, every cut into two reads; emitFrame is the recording model (natively: the real framer and HPACK decoder on a really split request header block after the client preface)"},
 				{Pkg: pkgTracer, Func: "H15c_q", Unwind: 8, Note: "tracingHTTP2Conn.Read/Write hand exactly the bytes returned / given to the frame tracer of their direction, for n in 0..4 and nil / error / timeout error (also n>0 together with an error), client and server side"},
 				{Pkg: pkgTracer, Func: "H15b_q", Unwind: 30, CaseGen: c15Cases(3), CaseNote: "case split: declared payload length of each of 2 frames (0..3) and every partition of the stream into 3 chunks; flags, stream ids and payload bytes symbolic", Note: "http2FrameTracer.trace (response direction): 2 frames of an unknown type, state checked after every chunk"},
 				{Pkg: pkgTracer, Func: "H15r_q", Unwind: 12, Note: "http2RetryCollector: every well-formed history of <=5 operations (stream starts, is refused, completes for good, retry timer fires, connection dies) on two test names; the 3 s retry timer is a stub whose firing is an operation"},
@@ -101,6 +102,7 @@ func registry() []PropSpec {
 			Quick: []HarnessSpec{
 				{Pkg: pkgGrpcutil, Func: "H18a_q", Unwind: 16, Note: "PercentEncodeMessage on every byte string of length <=3 (all 256 byte values)"},
 				{Pkg: pkgGrpcutil, Func: "H18b_q", Unwind: 12, Note: "header list -> gRPC metadata -> header list: one header, key from {x-a, X-A-Bin, x-b-bin, X-C}, 1..2 values (ASCII or with a 0xff byte)"},
+				{Pkg: pkgGrpcutil, Func: "H18m_q", Unwind: 12, Note: "gRPC metadata with three keys (x-a-bin, x-b-bin, x-c), 1..2 values each (ASCII or with a 0xff byte) -> header list: every key keeps its own values"},
 				{Pkg: pkgGrpcutil, Func: "H18f_q", Unwind: 12, Note: "ConvertProtoHeaderToMetadata on two header entries with names from {x-a, X-A, x-b-bin, X-B-Bin} (same name twice, names differing in case, binary keys): every value reaches the metadata, in order, decoded exactly once"},
 				{Pkg: pkgGrpcutil, Func: "H18g_q", Unwind: 12, Note: "the same through the client side: AppendToOutgoingContext, then grpc-go's metadata.FromOutgoingContext (executed from its SSA)"},
 				{Pkg: pkgInternal, Func: "H18c_q", Unwind: 60, Note: "ConvertProtoToConnectError then ConvertConnectToProtoError (real connect-go Error/ErrorDetail code): codes 1..16, empty / non-empty message, 0..2 details of two types with 0..2 value bytes"},
@@ -129,7 +131,7 @@ func registry() []PropSpec {
 			ID: "C12",
 			Quick: []HarnessSpec{
 				{Pkg: pkgRefServer, Func: "H12a_q", Unwind: 40, TimeoutMs: 60000, Solvers: []string{"z3-new", "cvc5-int"}, Split: []SplitDim{{"grpc", 0, 1}, {"nd", 1, 11}, {"unit", 0, 6}, {"lz", 0, 1}, {"lead", 0, 2}}, CaseNote: "case split: protocol, number of digits (1..11 / 1..9), redundant leading zero or not, sign (none, +, -), and unit letter (H M S m u n, or an invalid letter); every other digit is symbolic", Note: "extractTimeout on Connect-Timeout-Ms / Grpc-Timeout values"},
-				{Pkg: pkgRefServer, Func: "H12c_q", Unwind: 40, Note: "referenceServerChecks middleware: request with / without test name, with / without Connect-Timeout-Ms, with / without request trailers, followed or not by a repeated request of the same test and a first request of another test"},
+				{Pkg: pkgRefServer, Func: "H12c_q", Unwind: 40, Note: "referenceServerChecks middleware: request with / without test name, with / without Connect-Timeout-Ms (250 or 0), with / without request trailers, followed or not by a repeated request of the same test and a first request of another test"},
 				{Pkg: pkgRefServer, Func: "H12b_q", Unwind: 40, Note: "checkHTTPVersion/Protocol/Codec/Compression/TLS on the request of a conformant client: full matrix expected x actual of 3 HTTP versions, GET/POST, 3 protocols (unary/stream content types, bare or +codec), 2 codecs, 6 compressions (identity explicit or omitted), TLS on/off, client certificate none/a/b"},
 			},
 			Stubs: []string{"int64(Duration.Hours/Minutes/Seconds()) summarised as q-1..q+1 (q exact when the remainder is 0), justified by the floating-point lemma of DESIGN.md section 4", "http.Header / url.Values accessed with canonical keys (map models)", "enum descriptors reduced to 'number is a declared value'", "printer = recording stub"},
@@ -207,6 +209,7 @@ func registry() []PropSpec {
 				{Pkg: pkgTracer, Func: "H14a_req_q", Unwind: 40, CaseGen: c14Cases(2, 2, 2), CaseNote: c14Note(2, 2, 2), Note: "request body, same bounds"},
 				{Pkg: pkgTracer, Func: "H14a_resp3_q", Unwind: 40, CaseGen: c14Cases(1, 3, 3), CaseNote: c14Note(1, 3, 3), Note: "response body: one enveloped message of length 0..3 delivered in 3 reads (payload still incomplete after two of them), same symbolic terminal conditions"},
 				{Pkg: pkgTracer, Func: "H14w_q", Unwind: 40, CaseGen: c14wCases(2, 2, 2), CaseNote: "case split: message lengths, number of bytes accepted in total, their partition into 2 writes, and 0..2 extra bytes of the last write that the underlying writer refuses (short write); flags, payloads and the error of a complete last write symbolic", Note: "tracingResponseWriter.Write: response written by the handler in 2 writes, the last one possibly short / failing"},
+				{Pkg: pkgTracer, Func: "H14u_q", Unwind: 12, Split: []SplitDim{{"limit", 0, 7}, {"cut", 0, 7}}, CaseNote: "case split: bytes seen and where they are cut into two pieces; flags, payload and side symbolic", Note: "dataTracer.emitUnfinished twice (as the HTTP/2 connection tracer does at request end and at stream close) after 0..7 bytes of one 2-byte message traced in two pieces (every cut), request or response side, then one more message: one partial event at most, none the second time, the next message cut afresh"},
 			},
 			Thorough: []HarnessSpec{
 				{Pkg: pkgTracer, Func: "H14a_resp_t", Unwind: 60, QuickSolve: true, CaseGen: c14Cases(2, 2, 3), CaseNote: c14Note(2, 2, 3), Note: "response body: <=2 enveloped messages delivered in 3 reads, symbolic flags/payload/terminal condition; no decompressor"},
